@@ -43,6 +43,7 @@ def _lm_tables(lm):
 def register(hub, prop):
     fd = hub.fd
     rec = hub.rec
+    rec.require(M, 20)
     ring = []  # [obj, kind, {name: copy}]
 
     def drop(ent):
